@@ -24,7 +24,7 @@ import re
 import common as C
 
 A = "alice@example.com"
-CLASSES = {1: "dedup_encoding"}
+CLASSES = {1: "empty_part_s3_blob"}
 NO = "NO"   # FETCH answered with a tagged NO
 BOUNDARY = "=_c15bnd"
 
@@ -387,7 +387,7 @@ def compile_scenario(steps, rng, parsed_of):
                 for reader in (cfg["imap"], not cfg["imap"]):
                     add({"op": "s3_enable", "imap": reader, "lmtp": cfg["lmtp"], "timeout": 2})
                     for m in range(nmsg):
-                        reads_for(m, reader, reader)
+                        reads_for(m, reader, reader and st[1] != "all_clean")
                 add({"op": "s3_enable", "imap": cfg["imap"], "lmtp": cfg["lmtp"], "timeout": 2})
     add({"op": "sql", "store": "shared", "q": "SELECT id, sha256_hash, storage_type, reference_count, COALESCE(content,''), COALESCE(s3_blob_id,''), content IS NULL FROM blobs ORDER BY id"}, ("blobs",))
     add({"op": "sql", "store": "user_db_1", "q": "SELECT message_id, id, blob_id, COALESCE(text_content,''), COALESCE(content_transfer_encoding,'') FROM message_parts ORDER BY message_id, id"}, ("rows",))
